@@ -505,6 +505,7 @@ func runC07(c *an.Ctx) {
 
 	// ---------------- O5: FSNode mutators update Filesize
 	c07FSNodeFilesize(c, roles.fFormat)
+	c07Round11(c)
 }
 
 // c07LinkSizeCoupling implements O1 over the given functions; only (if non-nil) restricts to some of them.
@@ -1223,4 +1224,169 @@ func c07ResolveRoles(c *an.Ctx) *c07Roles {
 		}
 	}
 	return r
+}
+
+// c07Round11: obligations added after mutation probing (round 11), all in the importer packages.
+func c07Round11(c *an.Ctx) {
+	p := c.P
+	var fns []*ssa.Function
+	for _, rel := range []string{c07H, c07Bal, c07Tr} {
+		fns = append(fns, p.PkgFuncs(rel)...)
+	}
+	const fmtPkg = "github.com/ipfs/go-ipld-format"
+	nSer, nLink, nNext, nRec := 0, 0, 0, 0
+	for _, fn := range fns {
+		name := an.FuncName(fn)
+		// (a) serialised FSNode bytes reach the DAG node: after FSNode.GetBytes succeeded, every success return is preceded
+		// by handing the bytes to ProtoNode.SetData / NodeWithData
+		for _, call := range an.Calls(fn, an.M("ipld/unixfs", "FSNode", "GetBytes")) {
+			bs := an.Result(call, 0)
+			blocked := map[ssa.Instruction]bool{}
+			for _, use := range an.AllCalls(fn) {
+				ci := an.Callee(use)
+				if !(ci.Name == "SetData" || ci.Name == "NodeWithData") {
+					continue
+				}
+				for _, a := range use.Common().Args {
+					for _, b := range bs {
+						if a == b || an.Aliases(b)[a] {
+							blocked[use] = true
+						}
+					}
+				}
+			}
+			failE := an.NilEdges(fn, an.ErrResult(call), false)
+			var bad *ssa.Return
+			nSucc := 0
+			for _, ret := range an.Returns(fn) {
+				n := len(ret.Results)
+				if n == 0 || !an.IsErrorType(ret.Results[n-1].Type()) || !an.IsNilConst(ret.Results[n-1]) {
+					continue
+				}
+				if !an.Reaches(fn, call, ret, nil, nil) {
+					continue
+				}
+				nSucc++
+				// the bytes may also be the result itself
+				direct := false
+				for _, r := range ret.Results {
+					for _, b := range bs {
+						if r == b {
+							direct = true
+						}
+					}
+				}
+				if !direct && an.Reaches(fn, call, ret, failE, blocked) {
+					bad = ret
+				}
+			}
+			if nSucc == 0 {
+				continue
+			}
+			nSer++
+			pos := call.Pos()
+			if bad != nil {
+				pos = bad.Pos()
+			}
+			c.Check(bad == nil, "O1", "R-POST", name, "GetBytes=>SetData-before-success", pos,
+				"the serialised FSNode is stored into the DAG node before success is reported", "success is returned after FSNode.GetBytes without storing the bytes into the DAG node (SetData / NodeWithData): the node keeps stale Data (sizes, type, mode/mtime are lost)")
+		}
+		// (b) a child linked into a node is also added to the DAG service
+		for _, call := range an.Calls(fn, an.M("ipld/merkledag", "ProtoNode", "AddNodeLink")) {
+			args := an.Args(call)
+			if len(args) < 2 {
+				continue
+			}
+			child, isPar := args[1].(*ssa.Parameter)
+			if !isPar {
+				continue
+			}
+			hasDB := false
+			for _, q := range fn.Params {
+				if an.TypeIs(q.Type(), c07H, "DagBuilderHelper") {
+					hasDB = true
+				}
+			}
+			if !hasDB {
+				continue
+			}
+			nLink++
+			blocked := map[ssa.Instruction]bool{}
+			for _, use := range an.AllCalls(fn) {
+				ci := an.Callee(use)
+				if ci.Name != "Add" {
+					continue
+				}
+				for _, a := range use.Common().Args {
+					if a == ssa.Value(child) {
+						blocked[use] = true
+					}
+				}
+			}
+			failE := an.NilEdges(fn, an.ErrResult(call), false)
+			ok := true
+			for _, ret := range an.Returns(fn) {
+				if an.Reaches(fn, call, ret, failE, blocked) {
+					ok = false
+				}
+			}
+			c.Check(ok, "O1", "R-POST", name, "AddNodeLink(child)=>Add(child)", call.Pos(),
+				"a child linked into the node is handed to the DAG service", "a child is linked into the node but a return is reached without adding that child to the DAG service: the file cannot be read back (block not found)")
+		}
+		// (c) the chunk handed out by the builder is consumed: the function that returns the pending chunk clears it
+		for _, ret := range an.Returns(fn) {
+			if fn.Signature.Recv() == nil || !an.TypeIs(fn.Signature.Recv().Type(), c07H, "DagBuilderHelper") {
+				continue
+			}
+			for _, r := range ret.Results {
+				u, ok := r.(*ssa.UnOp)
+				if !ok || u.Op != token.MUL {
+					continue
+				}
+				f, base := an.FieldOf(u.X)
+				if f == nil {
+					continue
+				}
+				if sl, ok := f.Type().Underlying().(*types.Slice); !ok || !types.Identical(sl.Elem(), types.Typ[types.Byte]) {
+					continue
+				}
+				nNext++
+				var clears []ssa.Instruction
+				for _, st := range an.StoresToField(fn, f, base) {
+					if an.IsNilConst(st.Val) {
+						clears = append(clears, st)
+					}
+				}
+				okF, _ := an.MustFollow(fn, u, clears)
+				c.Check(len(clears) > 0 && okF, "O2", "R-PAIR", name, "pending-chunk-returned=>cleared", ret.Pos(),
+					"the pending chunk is cleared when it is handed out", "the pending chunk is returned without being cleared: the same chunk is handed out again on the next call (duplicated data, the import never ends)")
+			}
+		}
+		// (d) the balanced filler descends one level per recursion: the depth handed to itself is its depth parameter - 1
+		if fn.Pkg != nil && strings.HasSuffix(fn.Pkg.Pkg.Path(), c07Bal) {
+			for _, call := range an.AllCalls(fn) {
+				if an.Callee(call).Static != fn {
+					continue
+				}
+				for i, a := range call.Common().Args {
+					if i >= len(fn.Params) || !c06IsInt(fn.Params[i].Type()) {
+						continue
+					}
+					nRec++
+					b, ok := a.(*ssa.BinOp)
+					k := int64(0)
+					if ok {
+						k, _ = an.XBInt64(b.Y)
+					}
+					c.Check(ok && b.Op == token.SUB && b.X == ssa.Value(fn.Params[i]) && k == 1, "O3", "R-CONST", name, "recursion-depth=depth-1", call.Pos(),
+						"the recursive filler builds its children one level below itself", "the recursive filler hands itself a depth other than (its own depth - 1): leaves end up at different depths / the import fails for multi-level files")
+				}
+			}
+		}
+	}
+	_ = fmtPkg
+	c.Min("O1 serialisations of an FSNode in the importer", nSer, 1)
+	// (b)-(d) are anchored on one particular shape (link and add in one function, direct self-recursion); a refactor may
+	// legitimately move the pieces apart, in which case these obligations do not apply: no vacuity minimum for them.
+	c.Note("round-11 shapes engaged: linked children %d, pending-chunk returns %d, direct recursive calls of the balanced filler %d", nLink, nNext, nRec)
 }
